@@ -688,8 +688,8 @@ func (tree *MutableTree) GetVersioned(key []byte, version int64) ([]byte, error)
 			}
 
 			if isFastCacheEnabled {
-				fastNode, _ := tree.ndb.GetFastNode(key)
-				if fastNode == nil && version == tree.ndb.getCachedLatestVersion() {
+				fastNode, err := tree.ndb.GetFastNode(key)
+				if err == nil && fastNode == nil && version == tree.ndb.getCachedLatestVersion() {
 					return nil, nil
 				}
 
@@ -700,7 +700,7 @@ func (tree *MutableTree) GetVersioned(key []byte, version int64) ([]byte, error)
 		}
 		t, err := tree.GetImmutable(version)
 		if err != nil {
-			return nil, nil
+			return nil, err
 		}
 		value, err := t.Get(key)
 		if err != nil {
